@@ -93,6 +93,11 @@ struct GenOpt {
   int maxsteps = 1;
   bool generic_geometry = true;
   double calm = 0.; // probability of scaling all velocities to Mach <~ 0.3
+  double subnormal = 0.; // probability of the class 'subnormal-mass-pockets'
+  // false: only pocket densities below 2^-1024 (1/rho = inf, the isinf() guards
+  // of Hydro apply) and one step; true: densities up to 1e-305 and 1-3 steps
+  // (the state then leaves the guarded range, see tiny_density_steps)
+  bool subnormal_extended = false;
 };
 
 std::vector<int> divisors(int n) {
@@ -317,7 +322,15 @@ VCase gen_problem(const GenOpt &o) {
   // --- geometry: exact class = cell sizes k*2^e with k <= 50, so that every
   // layout derives bit-identical cell sizes, areas and volumes
   const bool exact = !o.generic_geometry || !vr::coin(0.12);
-  const int e = (int)vr::irange(-8, 60);
+  // class 'subnormal-mass-pockets': ordinary slow gas whose total pressure
+  // P + rho v^2 is <= 0.1 in code units, next to pockets with rho in
+  // [1e-320, 1e-305] in cells small enough that the cell mass rho*V is a
+  // subnormal number (1/mass overflows: the case the isinf() guards of Hydro
+  // exist for).  The pressure bound keeps ratios like p*/(P + DBL_MIN) of the
+  // Riemann solver finite; contrasts of this size at larger pressures are
+  // outside the supported range.
+  const bool subn = vr::coin(o.subnormal);
+  const int e = subn ? (int)vr::irange(-8, 2) : (int)vr::irange(-8, 60);
   int k[3];
   switch (vr::weighted({4, 3, 3})) {
   case 0:
@@ -372,6 +385,10 @@ VCase gen_problem(const GenOpt &o) {
     family = vr::weighted({1, 4, 4, 4, 0, 3});
     pockets = vr::coin(0.25);
   }
+  if (subn) {
+    family = vr::weighted({2, 3, 2, 3});
+    pockets = false;
+  }
   std::vector<double> W[5];
   gen_base_field(family, n, rho0, P0, cs0, W);
   if (o.fieldmode == FM_GENTLE) {
@@ -399,6 +416,55 @@ VCase gen_problem(const GenOpt &o) {
   }
   if (pockets)
     gen_pockets(N, W);
+  if (subn) {
+    // slow drift, total pressure scale 10^U(-6,-1)
+    double vmax = 0., S = 0.;
+    for (int g = 0; g < N; ++g)
+      for (int i = 0; i < 3; ++i)
+        vmax = std::max(vmax, std::abs(W[1 + i][g]));
+    const double vfac =
+        vmax > 0.5 * cs0 ? vr::uni(0.01, 0.5) * cs0 / vmax : (vr::coin(0.3) ? 0. : 1.);
+    for (int g = 0; g < N; ++g) {
+      double v2 = 0.;
+      for (int i = 0; i < 3; ++i) {
+        W[1 + i][g] *= vfac;
+        v2 += W[1 + i][g] * W[1 + i][g];
+      }
+      S = std::max(S, W[4][g] + W[0][g] * v2);
+    }
+    const double scale = std::pow(10., vr::uni(-6., -1.)) / S;
+    for (int g = 0; g < N; ++g) {
+      W[0][g] *= scale;
+      W[4][g] *= scale;
+    }
+    // pockets: a slab (cells in its interior keep their mass for a step) or
+    // scattered cells
+    const bool slab = vr::coin(0.6);
+    const int a = (int)vr::irange(0, 2);
+    const int lo = (int)vr::irange(0, n[a] - 1);
+    const int len = (int)vr::irange(1, n[a]);
+    const double q = vr::uni(0.2, 0.8);
+    // 1/rho overflows below 2^-1024 = 5.56e-309: there the isinf() guards of
+    // Hydro apply; the decades above it (1/rho finite but > 1e305) are a class
+    // of their own (label pocket-density-unguarded)
+    const bool unguarded = o.subnormal_extended && vr::coin(0.3);
+    const double elo = unguarded ? -308.25 : -320., ehi = unguarded ? -305. : -308.26;
+    const double rhop = std::pow(10., vr::uni(elo, ehi));
+    const bool same = vr::coin(0.5); // one pocket density or one per cell
+    const int pmode = vr::weighted({2, 2, 1});
+    const double drift = vr::coin(0.6) ? 0. : vr::uni(0., 0.1);
+    for (int g = 0; g < N; ++g) {
+      const int i3[3] = {g / (n[1] * n[2]), (g / n[2]) % n[1], g % n[2]};
+      const bool in = slab ? ((i3[a] - lo + n[a]) % n[a]) < len : vr::coin(q);
+      if (!in)
+        continue;
+      const double r = same ? rhop : std::pow(10., vr::uni(elo, ehi));
+      W[0][g] = r;
+      W[4][g] = pmode == 0 ? r * cs0 * cs0 / gamma : (pmode == 1 ? r : 0.);
+      for (int i = 0; i < 3; ++i)
+        W[1 + i][g] *= drift;
+    }
+  }
   if (o.bcmode == BCM_FIXEDPOINT) {
     // uniform state is a fixed point only if nothing flows through a
     // reflecting / outflow boundary
@@ -445,9 +511,12 @@ VCase gen_problem(const GenOpt &o) {
   c.I("n", {n[0], n[1], n[2]}).I("per", {per[0], per[1], per[2]});
   c.I("bc", std::vector<int64_t>(bc, bc + 6));
   c.I("exactgeom", exact).I("family", family).I("pockets", pockets);
+  c.I("subnormal", subn);
   c.I("layouts", layouts).I("strategy", strategy).I("taskgraph", driver);
   c.I("order", order);
-  c.I("nsteps", o.maxsteps > 1 ? vr::irange(1, o.maxsteps) : 1);
+  c.I("nsteps", o.maxsteps > 1 && !(subn && !o.subnormal_extended)
+                    ? vr::irange(1, o.maxsteps)
+                    : 1);
   c.D("anchor", {anchor[0], anchor[1], anchor[2]});
   c.D("side", {side[0], side[1], side[2]});
   c.D("gamma", gamma).D("dtf", f).D("dtmax", dtmax);
@@ -512,6 +581,23 @@ void label_problem(const VCase &c, const Problem &P, VResult &r) {
       zero = true;
   if (zero)
     once(r, "exact-vacuum-cells");
+  if (c.has_i("subnormal") && c.i("subnormal")) {
+    once(r, "subnormal-mass-pockets");
+    const double vol = (P.side[0] / P.n[0]) * (P.side[1] / P.n[1]) * (P.side[2] / P.n[2]);
+    int sub = 0;
+    for (int g = 0; g < P.N; ++g)
+      if (P.W[0][g] * vol > 0. && P.W[0][g] * vol < DBL_MIN)
+        ++sub;
+    if (sub)
+      once(r, "subnormal-mass-cell");
+    if (sub == P.N)
+      once(r, "subnormal-mass-everywhere");
+    for (int g = 0; g < P.N; ++g)
+      if (P.W[0][g] > 0. && P.W[0][g] < 1e-300 && std::isfinite(1. / P.W[0][g])) {
+        once(r, "pocket-density-unguarded");
+        break;
+      }
+  }
 }
 
 // returns true if the layout has >= 2 subgrids or a wrapped axis
@@ -576,6 +662,34 @@ bool cell_runs_into_wall(const Problem &P, const Subject &S) {
   return false;
 }
 
+// matcher of the finding 'tiny_density_unguarded': at the start of the step a
+// cell has a density or mass that is tiny (below 1e-290 of a problem whose
+// pressure scale is <= 0.1) but not below 2^-1024, so that 1/rho and 1/m are
+// finite and the isinf() guards of Hydro do not apply.  The pressure of an
+// ordinary neighbour then accelerates it to the velocity cap (1e99) in
+// set_primitive_variables, or to dt/2 grad(P)/rho ~ 1e300 in the half-step
+// prediction; squares and products of such velocities overflow in the Riemann
+// solver (e.g. p* / (P + DBL_MIN)) and the fluxes become NaN.
+bool tiny_density_unguarded(const Problem &P, const Subject &S, const double dt) {
+  double Pmax = 0., dmin = DBL_MAX;
+  for (int a = 0; a < 3; ++a)
+    dmin = std::min(dmin, P.side[a] / P.n[a]);
+  for (int g = 0; g < P.N; ++g)
+    Pmax = std::max(Pmax, S.cell[g]->primitives(4));
+  for (int g = 0; g < P.N; ++g) {
+    const HydroVariables &h = *S.cell[g];
+    const double rho = h.primitives(0), m = h.conserved(0);
+    if (rho > 0. && std::isfinite(1. / rho) &&
+        (rho < 1e-290 || 0.5 * dt * (1. / rho) * (2. * Pmax / dmin) >= 1e100))
+      return true;
+    if (m > 0. && m < 1e-290 && std::isfinite(1. / m))
+      return true;
+    if (h.get_primitives_velocity().norm() >= 1e90)
+      return true;
+  }
+  return false;
+}
+
 // ------------------------------------------------------------------ C04 oracles
 // conservation (periodic: mass, momentum, energy; walls: mass, energy) and
 // physical states after every step
@@ -599,6 +713,7 @@ VResult o_conservation(const VCase &c, const bool walls, const bool only_physica
       ref.load(S.cell);
     const double dt = choose_dt(c, S, r);
     const bool cellfast = walls && cell_runs_into_wall(P, S);
+    const bool overflow_class = tiny_density_unguarded(P, S, dt);
     long double t0[5], a0[5], t1[5], a1[5];
     S.totals(t0, a0);
     const StepInfo info = ref.step(dt);
@@ -610,6 +725,8 @@ VResult o_conservation(const VCase &c, const bool walls, const bool only_physica
     const std::string phys = S.physical();
     if (!phys.empty()) {
       r.fail(fmt("step %d: ", step + 1) + phys);
+      if (overflow_class)
+        r.known = "tiny_density_unguarded";
       return r;
     }
     if (only_physical)
@@ -867,6 +984,9 @@ VResult o_layout(const VCase &c) {
         for (int j = 0; j < 5; ++j)
           if (memcmp(&S.cell[g]->conserved(j), &S2.cell[g]->conserved(j), 8) ||
               memcmp(&S.cell[g]->primitives(j), &S2.cell[g]->primitives(j), 8)) {
+            // observed non-determinism (e.g. a dependence on uninitialised
+            // memory): by its nature it need not reproduce on replay
+            r.schedule_dependent = true;
             r.fail(fmt("two executions of the same layout in the same order are "
                        "not bit-identical: cell %d variable %d: %a / %a vs %a / %a",
                        g, j, S.cell[g]->conserved(j), S.cell[g]->primitives(j),
@@ -1182,6 +1302,7 @@ int main(int argc, char **argv) {
     GenOpt o;
     o.bcmode = BCM_PERIODIC;
     o.maxsteps = 2;
+    o.subnormal = 0.08;
     props.push_back(
         {"conservation_periodic", 6000, [o] { return gen_problem(o); },
          [](const VCase &c) { return o_conservation(c, false, false); },
@@ -1192,7 +1313,7 @@ int main(int argc, char **argv) {
                "Non-trivial = non-uniform state and (>=2 subgrids or a wrapped "
                "axis) and no safeguard.",
          {{"layout-self-neighbour", 0.1}, {"layout-multi-subgrid", 0.3},
-          {"flux-limiter-active", 0.03}}});
+          {"flux-limiter-active", 0.03}, {"subnormal-mass-cell", 0.04}}});
   }
   {
     GenOpt o;
@@ -1215,6 +1336,7 @@ int main(int argc, char **argv) {
     o.bcmode = BCM_ANY;
     o.fieldmode = FM_HARSH;
     o.maxsteps = 3;
+    o.subnormal = 0.15;
     props.push_back(
         {"physical_states", 5000, [o] { return gen_problem(o); },
          [](const VCase &c) { return o_conservation(c, false, true); },
@@ -1223,7 +1345,23 @@ int main(int argc, char **argv) {
                "steps: after every step every mass, energy, density, pressure is "
                "finite and >=0, velocities and momenta finite, and the task graph "
                "ran to completion. Non-trivial = non-uniform state.",
-         {{"safeguard", 0.02}, {"exact-vacuum-cells", 0.1}}});
+         {{"safeguard", 0.02}, {"exact-vacuum-cells", 0.1},
+          {"subnormal-mass-cell", 0.08}}});
+  }
+  {
+    GenOpt o;
+    o.bcmode = BCM_ANY;
+    o.fieldmode = FM_HARSH;
+    o.maxsteps = 3;
+    o.subnormal = 1.;
+    o.subnormal_extended = true;
+    props.push_back(
+        {"tiny_density_steps", 3000, [o] { return gen_problem(o); },
+         [](const VCase &c) { return o_conservation(c, false, true); },
+         dom + "NOT part of the registered unit (suspected finding "
+               "tiny_density_unguarded). As physical_states, class "
+               "subnormal-mass-pockets only, but pocket densities up to 1e-305 "
+               "(1/rho finite) and 1-3 steps."});
   }
   {
     GenOpt o;
